@@ -439,6 +439,14 @@ void DOMParentNode::normalize()
             next = kid; // Don't advance; there might be another.
         }
 
+        // A Text node that is (still) empty once its neighbours were merged into it is removed:
+        // "neither adjacent Text nodes nor empty Text nodes" (DOM Core, Node.normalize)
+        else if (kid->getNodeType() == DOMNode::TEXT_NODE &&
+                 ((DOMTextImpl *) kid)->getLength() == 0)
+        {
+            removeChild(kid);
+        }
+
         // Otherwise it might be an Element, which is handled recursively
         else
             if (kid->getNodeType() == DOMNode::ELEMENT_NODE)
